@@ -254,6 +254,48 @@ def generate(repo: str) -> str:
         for n in ast.walk(gd):
             if isinstance(n, ast.Assign) and len(n.targets) == 1 and ast.unparse(n.targets[0]) == "params[p1, p2]":
                 acc.append(("get_full_data.params[p1, p2]", ast.unparse(n.value)))
+    # purity facts (C06)
+    def src_tree(path):
+        return tree(path)
+    solve_fn = _find(sol, "Solver", "solve")
+    resets_params = resets_structs = False
+    if solve_fn is not None:
+        seen_update = False
+        for stmt in solve_fn.body:
+            txt = ast.unparse(stmt)
+            if "self.update_params(" in txt:
+                seen_update = True
+            if not seen_update:
+                if isinstance(stmt, ast.Assign) and txt.replace(" ", "") == "self.param_dic={}":
+                    resets_params = True
+                if isinstance(stmt, ast.For) and "self.structures" in ast.unparse(stmt.iter) and ".reset()" in txt:
+                    resets_structs = True
+    struct = tree("lekkersim/structure.py")
+    split_fn = _find(struct, "Structure", "split_in_out")
+    resets_part = False
+    if split_fn is not None:
+        got_in = got_out = False
+        for stmt in split_fn.body:
+            if isinstance(stmt, ast.For):
+                break
+            txt = ast.unparse(stmt).replace(" ", "")
+            got_in = got_in or txt == "self.in_pins={}"
+            got_out = got_out or txt == "self.out_pins={}"
+        resets_part = got_in and got_out
+    inter = _find(struct, "Structure", "intermediate")
+    closure_bound = False
+    if inter is not None:
+        inner = [n for n in ast.walk(inter) if isinstance(n, ast.FunctionDef) and n.name == "solve_inter"]
+        if inner:
+            arg_names = {a.arg for a in inter.args.args}
+            uses = [n for n in ast.walk(inner[0]) if isinstance(n, ast.Attribute) and isinstance(n.value, ast.Name) and n.value.id in arg_names]
+            closure_bound = not uses
+    out += ["", "/-- purity facts (C06): `Solver.solve` empties its working dictionary / resets the structures before use;",
+            "`split_in_out` starts from an empty partition; the monitor closure reads no attribute of live structures -/",
+            f"def solveResetsParams : Bool := {'true' if resets_params else 'false'}",
+            f"def solveResetsStructures : Bool := {'true' if resets_structs else 'false'}",
+            f"def splitResetsPartition : Bool := {'true' if resets_part else 'false'}",
+            f"def monitorClosureBound : Bool := {'true' if closure_bound else 'false'}"]
     out += ["", "/-- read-out accessor formulas as written in the source (normalised with ast.unparse) -/",
             "def accessors : List (String × String) := ["]
     out.append(",\n".join(f"  ({lean_str(k)}, {lean_str(v)})" for k, v in acc) + "]")
